@@ -9,6 +9,7 @@
   If the code's decision changes for any value, `decide` fails here.
 -/
 import LccModel.Model.Loader
+import LccModel.Model.DirScan
 import LccModel.Generated.C13Tables
 
 namespace LccModel.Generated.C13
@@ -72,5 +73,21 @@ theorem module_model_agrees : ∀ r ∈ moduleCondTable,
      okNat ((loadDirReal (.mk "suites" [moduleLayout r.1] [])).map List.length),
      okNat ((loadFilesReal [moduleLayout r.1]).map List.length))
       = (some r.2.1, some (count r.2.2.1), some (count r.2.2.2)) := by decide +kernel
+
+/-! ## The directory scan (`Model/DirScan.lean`)
+
+  `scanFilterTable`: for every name of a prefix × core × suffix set, whether the real `get_py_files_from_dir` returns an
+  entry of that name when it is a regular file / `get_matching_files("<dir>/*.py", excluding="<dir>/__*.py")` does /
+  `get_py_files_from_dir` does when it is a directory / when it is a dangling symbolic link.  The decision depends on the
+  name only and is `DirScan.acceptsName`.  A scan that starts accepting dot-prefixed or `__`-prefixed names, other
+  extensions or other cases — or starts looking at the kind of the entry — breaks this obligation. -/
+def quad (b : Bool) : Bool × Bool × Bool × Bool := (b, b, b, b)
+
+/-- names travel as `List Char` (`acceptsName s = acceptsChars s.toList` by definition) -/
+theorem scan_filter_agrees : ∀ r ∈ scanFilterTable, quad (DirScan.acceptsChars r.1) = r.2 := by
+  decide +kernel
+
+/-- `strip_py_ext` on every accepted name of the set: the suite is named after the file without its last three characters. -/
+theorem scan_stem_agrees : ∀ r ∈ scanStemTable, DirScan.stemChars r.1 = r.2 := by decide +kernel
 
 end LccModel.Generated.C13
